@@ -89,15 +89,21 @@ class HistoryRunner:
 
     def call(self, i, phase="call"):
         spec = self.specs[i]
-        inp = c13lib.make_inputs(spec)
-        before = c13lib.snapshot_inputs(inp)
         self.history.append(["call", spec])
         try:
-            raw = c13lib.execute(spec, inp)
-            got = {"ok": c13lib.canon(raw)}
-        except Exception as e:  # noqa: BLE001
-            raw = None
+            inp = c13lib.make_inputs(spec)
+            before = c13lib.snapshot_inputs(inp)
+        except Exception as e:  # noqa: BLE001   (constructing the arguments is a library call too)
+            inp, before = {}, {}
             got = {"raised": type(e).__name__, "msg": str(e)[:200]}
+            raw = None
+        else:
+            try:
+                raw = c13lib.execute(spec, inp)
+                got = {"ok": c13lib.canon(raw)}
+            except Exception as e:  # noqa: BLE001
+                raw = None
+                got = {"raised": type(e).__name__, "msg": str(e)[:200]}
         after = c13lib.snapshot_inputs(inp)
         if before != after:
             which = [k for k in before if before[k] != after.get(k)]
